@@ -5,12 +5,12 @@
    sha256 / dsha256 are arbitrary functions (Section variables of the model): every theorem holds for all of them.
    tx_wf: fields in their wire ranges (32-byte outpoint hashes, 32-bit index/sequence/version/lock time, 64-bit amounts).
 
-   Two families of inputs are excluded by NAMED predicates, each refuted without the exclusion (known findings):
+   One family of inputs is excluded by a NAMED predicate and refuted without the exclusion (known finding):
      * script codes with an undecodable instruction (`core_decodable script = false`): pycoin's walk goes on behind the
        bad instruction; exact condition for FindAndDelete: `rewalk_excluded` (C04_find_and_delete_exact).
        No successful script evaluation can contain such a script, in Core or in pycoin.
-     * one-byte signature blobs 01..10, 81 (`sig_pattern_excluded`): pycoin removes OP_n, Core removes `01 xx`.
-       Such a blob has an empty DER part and never verifies (C04_pattern_differs_only_when_sig_unparseable).
+   (The second family of the first version of this file — one-byte signature blobs, whose MINIMAL push pycoin removed —
+   is gone: since /repo commit 2ba5b6d _delete_signature removes the plain push, which is Core's CScript() << sig.)
    "Computing a hash never modifies the transaction" is not a theorem (a pure model cannot alias): direct check only. *)
 From PV Require Import Base.Bytes Base.Outcome Base.Varint Gen.GenOpcodes Gen.GenSighashC04
   Model.Push Model.Sighash Spec.SighashCore Model.SighashBridge Proofs.PushP Proofs.SighashP.
@@ -49,33 +49,35 @@ Theorem C04_find_and_delete_eq_partial : forall pat script : bytes,
 Proof. exact find_and_delete_decodable. Qed.
 Print Assumptions C04_find_and_delete_eq_partial.
 
-(* the signature being checked: pycoin's pattern (minimal push) vs Core's CScript() << sig *)
-Definition C04_delete_signature_statement : Prop := delete_signature_statement.
-Theorem C04_delete_signature_refuted_one_byte : ~ C04_delete_signature_statement.
-Proof. exact delete_signature_refuted. Qed.
-Print Assumptions C04_delete_signature_refuted_one_byte.
+(* the signature being checked: the pattern pycoin removes IS Core's CScript() << sig (every blob below 2^32 bytes) *)
+Theorem C04_signature_pattern_is_core_push : forall sig : bytes, N.of_nat (length sig) < 2 ^ 32 ->
+  plain_push sig = Ret (core_push sig) /\ complete_instruction (core_push sig).
+Proof. exact signature_pattern_q. Qed.
+Print Assumptions C04_signature_pattern_is_core_push.
 
+(* full statement over all scripts: still refuted by the walk behind an undecodable instruction *)
+Definition C04_delete_signature_statement : Prop := delete_signature_statement.
+Theorem C04_delete_signature_refuted_rewalk : ~ C04_delete_signature_statement.
+Proof. exact delete_signature_refuted. Qed.
+Print Assumptions C04_delete_signature_refuted_rewalk.
+
+(* C04_find_and_delete_eq for the signature pattern: every blob (no exclusion on the blob), every decodable script *)
 Theorem C04_delete_signature_eq_partial : forall script sig : bytes,
-  N.of_nat (length sig) < 2 ^ 32 -> sig_pattern_excluded sig = false -> core_decodable script = true ->
+  N.of_nat (length sig) < 2 ^ 32 -> core_decodable script = true ->
   delete_signature script sig = Ret (core_find_and_delete (core_push sig) script).
 Proof. exact delete_signature_decodable. Qed.
 Print Assumptions C04_delete_signature_eq_partial.
 
 Theorem C04_delete_signature_exact : forall script sig : bytes,
-  N.of_nat (length sig) < 2 ^ 32 -> sig_pattern_excluded sig = false ->
+  N.of_nat (length sig) < 2 ^ 32 ->
   (delete_signature script sig = Ret (core_find_and_delete (core_push sig) script)
    <-> rewalk_excluded (core_push sig) script = false).
 Proof. exact delete_signature_iff. Qed.
 Print Assumptions C04_delete_signature_exact.
 
-Theorem C04_pattern_differs_only_when_sig_unparseable : forall sig : bytes,
-  sig_pattern_excluded sig = true -> length sig = 1%nat /\ removelast sig = [].
-Proof. exact pattern_differs_only_when_sig_unparseable. Qed.
-Print Assumptions C04_pattern_differs_only_when_sig_unparseable.
-
 (* CHECKMULTISIG: every signature removed in turn (sig_for_hash_type_f) = Core's script code *)
 Theorem C04_multisig_script_code_partial : forall (sigs : list bytes) (script : bytes),
-  Forall (fun sg => N.of_nat (length sg) < 2 ^ 32 /\ sig_pattern_excluded sg = false) sigs ->
+  Forall (fun sg => N.of_nat (length sg) < 2 ^ 32) sigs ->
   core_decodable script = true ->
   delete_signatures script sigs = Ret (core_script_code_base script sigs).
 Proof. exact delete_signatures_decodable. Qed.
@@ -193,7 +195,7 @@ Print Assumptions C04_grs_single_sha.
 (* ---- the hypotheses are satisfiable --------------------------------------------------------------------- *)
 Example C04_hypotheses_satisfiable :
   tx_wf witness_tx /\ core_decodable example_script = true
-  /\ complete_instruction [n2b OP_CODESEPARATOR] /\ sig_pattern_excluded [x30; x01] = false
+  /\ complete_instruction [n2b OP_CODESEPARATOR] /\ plain_push [x30; x01] = Ret [x02; x30; x01]
   /\ legacy_presig witness_tx example_script 0 1
      = Ret (PPreimage ([x01; x00; x00; x00; x01] ++ repeatb x11 32 ++ [x00; x00; x00; x00]
                        ++ [x05; x02; x30; x01; xac; x51] ++ [xff; xff; xff; xff]
